@@ -15,6 +15,29 @@ CHECKS = {
              'nightly toolchain, z3. Outside: failures inside lsm-tree, more than one fault per call, memory-model effects.',
         technique='MIR symbolic execution + z3 validity queries over fault variables; native fault-injection replay',
     ),
+    'C05': dict(
+        category='model_checking',
+        text='MIR symbolic execution of every read method of Snapshot / BaseTransaction / both write transactions and of Keyspace::{iter,range,prefix}: '
+             'z3 decides that each tree read uses exactly the view\'s instant and that returned iterators own a registered nonce; every path of every '
+             'view-consuming function closes its tracker registration exactly once; each SnapshotTracker operation is one inductive step from an arbitrary '
+             'state satisfying the tracker invariant (3 DashMap slots, 2 ghost holders, 64-bit instants). Counterexamples are replayed natively '
+             '(frozen-view oracle, open-snapshot counts, GC + flush + major compaction battery).',
+        design_ref='DESIGN.md §5 C05',
+        note='Trusted: contract E2/E3/E5 for lsm-tree (reads at an instant, GC watermark rule, SuperVersion retention), F3/F4 (locks, DashMap as a bounded map). '
+             'Outside: thread schedules below event granularity, lsm-tree iterator internals, more than 3 distinct open instants.',
+        technique='MIR symbolic execution + z3 (dataflow validity queries, inductive invariant steps); native replay',
+    ),
+    'C07': dict(
+        category='model_checking',
+        text='MIR symbolic execution of every read/write method of the optimistic write transaction (z3: the recorded read covers what was read, under the right '
+             'keyspace id; every write records its conflict key), of ConflictManager::has_conflict against its set-theoretic specification for symbolic reads of every '
+             'shape and bound kind (<= 2 reads x <= 2 keys, abstract key order), and of Oracle::with_commit (validation range ts > instant, no effect on conflict, '
+             'registration after apply under one mutex, pruning vs GC watermark). Counterexamples are replayed natively as SSI histories.',
+        design_ref='DESIGN.md §5 C07',
+        note='Trusted: contract for BTreeMap/BTreeSet (incl. the range panic rule), lsm-tree reads, Mutex. Outside: histories longer than the bounded shapes, '
+             'schedules finer than the oracle mutex, lsm-tree prefix_to_range.',
+        technique='MIR symbolic execution + z3 equivalence with a reference specification; native SSI replay',
+    ),
 }
 
 NOT_YET = {}
